@@ -75,11 +75,15 @@ def showObjs (l : List Obj) : String := showStrs (l.map fun o => s!"{o.id}@{show
 /-- one scripted hook outcome (what the bash hook of the harness does at its i-th run):
 `x` exit 1 · `j` garbage in the response file (the run fails) · `e` response file left empty ·
 `k<n>` n converted objects at the full spelling of the rule's toVersion · `w<n>` n objects, apiVersion
-untouched · `d<n>` n objects at the desired apiVersion · `m<n>:<msg>` failedMessage + n objects -/
+untouched · `d<n>` n objects at the desired apiVersion · `m<n>:<msg>` failedMessage + n objects ·
+`p<letters>` one returned object per letter: `c` converted (the rule's toVersion) · `d` at the desired
+apiVersion · `o` left as it came · `n` apiVersion removed · `b` `{}` · `z` `null` (an object without
+apiVersion decodes to the empty version, one without a name is number 0) -/
 inductive Item where
   | x | e
   | k (n : Nat) | w (n : Nat) | d (n : Nat)
   | m (n : Nat) (msg : String)
+  | p (letters : List Char)
 
 def parseItem (s : String) : Option Item :=
   match s.splitOn ":" with
@@ -88,7 +92,10 @@ def parseItem (s : String) : Option Item :=
   | ["e"] => some .e
   | [t] =>
     let n := (t.drop 1).toString.toNat?
-    if t.startsWith "k" then n.map .k else if t.startsWith "w" then n.map .w
+    if t.startsWith "p" then
+      let ls := (t.drop 1).toString.toList
+      if ls.all (fun ch => "cdonbz".toList.contains ch) then some (.p ls) else none
+    else if t.startsWith "k" then n.map .k else if t.startsWith "w" then n.map .w
     else if t.startsWith "d" then n.map .d else none
   | [t, msg] =>
     if t.startsWith "m" && msg != "" then (t.drop 1).toString.toNat?.map (fun n => .m n msg) else none
@@ -103,6 +110,24 @@ def mkOut (n : Nat) (input : List Obj) (v : Option Ver) : List Obj :=
     | some o => ⟨o.id, v.getD o.ver⟩
     | none => ⟨900 + j, v.getD ((input.head?.map (·.ver)).getD [])⟩
 
+/-- one returned object per letter, as raw JSON; the `j`-th starts from the `j`-th input object
+(fresh beyond). An input object of the empty version is handed on as one without `apiVersion`. -/
+def mkMixedRaw (letters : List Char) (input : List Obj) (v desired : Ver) : List RawObj :=
+  (List.range letters.length).map fun j =>
+    let base : Obj := match input[j]? with
+      | some o => o
+      | none => ⟨900 + j, (input.head?.map (·.ver)).getD []⟩
+    match letters[j]? with
+    | some 'c' => .obj base.id (some v)
+    | some 'd' => .obj base.id (some desired)
+    | some 'o' => .obj base.id (if base.ver.isEmpty then none else some base.ver)
+    | some 'n' => .obj base.id none
+    | some 'b' => .obj 0 none
+    | _ => .null
+
+def mkMixed (letters : List Char) (input : List Obj) (v desired : Ver) : List Obj :=
+  (mkMixedRaw letters input v desired).map RawObj.decode
+
 def interp (group desired : Ver) (it : Item) (r : Rule) (input : List Obj) : HookOut :=
   match it with
   | .x => .exitFail
@@ -111,6 +136,7 @@ def interp (group desired : Ver) (it : Item) (r : Rule) (input : List Obj) : Hoo
   | .w n => .resp "" (mkOut n input none)
   | .d n => .resp "" (mkOut n input (some desired))
   | .m n msg => .resp msg (mkOut n input (some (full group r.dst)))
+  | .p ls => .resp "" (mkMixed ls input (full group r.dst) desired)
 
 def showMsg : Msg → String
   | .own s => "own:" ++ s
